@@ -92,6 +92,24 @@ def _run(ctx, quick, pool):
             seen_fail[kk] = seen_fail.get(kk, 0) + 1
             if seen_fail[kk] <= 2:
                 ctx.violation(key, msg, replay=replay)
+    # ---- non-dyadic step sizes: restart points are step times of the one-shot solve read from its query log ----------
+    nd_cfgs = [c for i, c in enumerate(configs) if c["ts_kind"] == "tensor" or i % 2 == 0]
+    if quick:
+        nd_cfgs = [c for i, c in enumerate(nd_cfgs) if c["has"] or (i + ctx.seed) % 3 == 0]
+    nd_grids = [(0.0, 0.1, 20, False), (0.5, 0.05, 16, True)] if quick else \
+        [(0.0, 0.1, 20, False), (0.5, 0.05, 16, True), (-0.3, 0.01, 30, False), (1.0, 0.3, 9, True)]
+    nd_jobs = [dict(c=c, seed=ctx.seed, grids=nd_grids, reps=3 if quick else 8) for c in nd_cfgs]
+    n_nd = 0
+    for job, out in zip(nd_jobs, pool.imap(loop.c13_nondyadic_group, nd_jobs, chunksize=2)):
+        for k, smp in out["keys"]:
+            n_nd += 1
+            ctx.case(k, nontrivial=True, trace=False, sample=smp if n_nd % 200 == 1 else None)
+        for key, msg, replay in out["fails"]:
+            kk = tuple(sorted(key.items()))
+            seen_fail[kk] = seen_fail.get(kk, 0) + 1
+            if seen_fail[kk] <= 2:
+                ctx.violation(key, msg, replay=replay)
+    ctx.notes["nondyadic_chunk_runs"] = n_nd
     for label, f in side_futs:
         r = f.result()
         ctx.add_tlc(r, label)
@@ -107,7 +125,9 @@ def _run(ctx, quick, pool):
                 "subset of the interior grid points as restart set, plus at most %d further output times anywhere, with and "
                 "without solver extra state; each scenario is run one-shot and chunked on the real sdeint (%s), "
                 "alternately on the same Brownian object and on an identically seeded twin; non-trivial = at least one "
-                "restart" % (sorted(t_ends), sorted(dts), extra_outs,
+                "restart; plus non-dyadic grids (dt = 0.1, 0.05, 0.01, 0.3; float32 and float64): the step times of the one-shot "
+                "solve are read from its Brownian query log, random restart sets are drawn among them and the chunked solve "
+                "must be bit-identical" % (sorted(t_ends), sorted(dts), extra_outs,
                              "2 solver configurations per scenario in rotation" if quick else
                              "all reversible-Heun configurations, a rotating third of the other configurations"))
     ctx.exhaustive = False if quick else None
